@@ -204,9 +204,19 @@ class JnpSortPlugin(PrimitiveLeafPlugin):
             def _patched(
                 a: ArrayLike,
                 axis: int = -1,
+                *,
                 kind: str | None = None,
                 order: Any | None = None,
+                stable: bool = True,
+                descending: bool = False,
             ) -> jax.Array:
+                # The TopK-based lowering is stable, which is a valid answer for either
+                # value of ``stable``.
+                del stable
+                if descending:
+                    raise NotImplementedError(
+                        "jnp.sort descending=True is not supported"
+                    )
                 if order is not None:
                     raise NotImplementedError(
                         "jnp.sort order parameter is not supported"
